@@ -81,6 +81,16 @@ def run_property(pid: str, tier: str, seed: int, write_lock=False, verbose=False
             traceback.print_exc()
             return 3
 
+    # bounded stand-ins: run on the real modules, reported under coverage.bounded, never counted as obligations
+    bounded = []
+    for g in P.get("bounded", []):
+        try:
+            bounded += g(prog)
+        except Exception as e:
+            print("checker error in bounded stand-in:", e)
+            traceback.print_exc()
+            return 3
+
     # ---- aggregate ---------------------------------------------------------------------------
     coarse = {}
     undecided = []
@@ -222,6 +232,20 @@ def run_property(pid: str, tier: str, seed: int, write_lock=False, verbose=False
                            "backend": g.backend, "replay": rep, "repo": repo_root()}, f, indent=1, default=str)
             violations.append((g.oid, path, "" if rep.get("status") == "reproduced" else " no-failing-input-found"))
 
+    for g in bounded:
+        if not g.ok:
+            kf = next((k for k in known_here if k.get("obligation") == g.oid), None)
+            if kf is not None:
+                known_hits.append(kf)
+                continue
+            path = os.path.join("replays", f"{pid}-{safe(g.oid)}.json")
+            with open(os.path.join(VERIF, path), "w") as f:
+                json.dump({"property": pid, "obligation": g.oid, "detail": g.detail, "witness": g.witness,
+                           "backend": g.backend, "repo": repo_root(),
+                           "replay": {"status": "reproduced", "detail": "bounded stand-in: the failing input was "
+                                      "constructed and run on the real modules of this tree"}}, f, indent=1, default=str)
+            violations.append((g.oid, path, ""))
+
     # ---- evidence ------------------------------------------------------------------------------------
     known_obls = sorted({k["obligation"] for k in known_hits if k.get("obligation")} |
                         {ob.coarse_id for r_, ob in refuted if id(ob) in flag_known})
@@ -262,7 +286,10 @@ def run_property(pid: str, tier: str, seed: int, write_lock=False, verbose=False
             "known_findings_hit": [k["id"] for k in known_hits],
             "known_finding_obligations_excluded_from_counts": known_obls,
             "complete": full,
-            "bounded": [],
+            "bounded": {"note": "bounded stand-ins, NOT counted in obligations/discharged and not proofs",
+                        "cases": len(bounded), "held": len([g for g in bounded if g.ok]),
+                        "bound": sorted({g.backend for g in bounded}),
+                        "samples": [{"id": g.oid, "ok": g.ok, "detail": g.detail[:160]} for g in bounded[:4]]},
             "samples": samples[:25],
         },
         "assumptions": assumptions,
